@@ -1,14 +1,6 @@
-#![allow(dead_code)]
-mod arr;
-mod cost;
-mod engine;
-mod props;
-mod ros;
-mod sim_uni;
-mod supply_ref;
-mod tasks;
 
-use engine::Tier;
+use rtaverif::engine::{self, Tier};
+use rtaverif::{fuzz, props};
 
 fn usage() -> ! {
     eprintln!("usage: rtaverif check <ID> [--tier quick|thorough] [--seed N] | replay <ID> <file> | list");
@@ -23,7 +15,25 @@ fn main() {
     }
     match args[0].as_str() {
         "child" => {
-            props::c20::child_main();
+            rtaverif::props::c20::child_main();
+        }
+        "fuzz-replay" => {
+            let file = args.get(1).unwrap_or_else(|| usage());
+            std::process::exit(fuzz::fuzz_replay(file));
+        }
+        "fuzz-evidence" => {
+            let id = args.get(1).unwrap_or_else(|| usage());
+            let log = args.get(2).unwrap_or_else(|| usage());
+            let verdict = args.get(3).map(|s| s.as_str()).unwrap_or("no violation");
+            std::env::set_var("RTAVERIF_FUZZ_ONLY", id);
+            std::process::exit(fuzz::fuzz_evidence(id, log, verdict));
+        }
+        "fuzz-seed" => {
+            let id = args.get(1).unwrap_or_else(|| usage());
+            let dir = args.get(2).unwrap_or_else(|| usage());
+            let n: usize = args.get(3).and_then(|s| s.parse().ok()).unwrap_or(64);
+            let seed: u64 = args.get(4).and_then(|s| s.parse().ok()).unwrap_or(1);
+            fuzz::fuzz_seed(id, dir, n, seed);
         }
         "list" => {
             for id in props::all_ids() {
